@@ -12,6 +12,7 @@ import (
 	vesttypes "github.com/chain4energy/c4e-chain/x/cfevesting/types"
 	mintertypes "github.com/chain4energy/c4e-chain/x/cfeminter/types"
 	"github.com/cosmos/cosmos-sdk/crypto/keys/secp256k1"
+	cryptotypes "github.com/cosmos/cosmos-sdk/crypto/types"
 	sdk "github.com/cosmos/cosmos-sdk/types"
 	authtypes "github.com/cosmos/cosmos-sdk/x/auth/types"
 	sdkvesting "github.com/cosmos/cosmos-sdk/x/auth/vesting/types"
@@ -340,7 +341,11 @@ func execVest(x *Exec, toks []string) string {
 			if ai == nil {
 				ai = app.AccountKeeper.NewAccountWithAddress(x.ctx, addr)
 			}
-			if err := ai.SetPubKey(secp256k1.GenPrivKey().PubKey()); err != nil {
+			var pub cryptotypes.PubKey = secp256k1.GenPrivKey().PubKey()
+			if kp := keyedPubFor(toks[1]); kp != nil {
+				pub = kp
+			}
+			if err := ai.SetPubKey(pub); err != nil {
 				panic(err)
 			}
 			if err := ai.SetSequence(5); err != nil {
@@ -711,4 +716,9 @@ func vestSummaryMonitor(x *Exec, f *vestFam, genesisOnly bool, out string) {
 	if want != out {
 		x.hit("C17", "summary-recomputed", "summary", fmt.Sprintf("query %s, recomputed %s", out, want))
 	}
+}
+
+func (f *vestFam) rebind(x *Exec) {
+	app := x.env.app
+	f.helperBk = bankkeeper.NewBaseKeeper(app.AppCodec(), app.GetKey(banktypes.StoreKey), app.AccountKeeper, app.GetSubspace(banktypes.ModuleName), map[string]bool{})
 }
